@@ -51,7 +51,8 @@ func c11nTokens(s string) (out []string, ok bool) {
 	for len(s) > 0 {
 		found := false
 		// "\r\n" before anything shorter
-		for _, t := range []string{"\r\n", "a", "b", "世", "\u0301", "\t", "\n"} {
+		// (c, d and the space are not in the alphabet of C11.n; C11.o, which shares this model, uses them)
+		for _, t := range []string{"\r\n", "a", "b", "c", "d", " ", "世", "\u0301", "\t", "\n"} {
 			if strings.HasPrefix(s, t) {
 				out, s, found = append(out, t), s[len(t):], true
 				break
@@ -68,7 +69,7 @@ func c11nIsControl(t string) bool { return t == "\t" || t == "\n" || t == "\r\n"
 
 func c11nTokWidth(t string) int {
 	switch t {
-	case "a", "b":
+	case "a", "b", "c", "d", " ":
 		return 1
 	case "世":
 		return 2
